@@ -477,7 +477,88 @@ fn segmentation(trk: &Tracker, run_viol: &Mutex<Vec<(String, String)>>, thorough
     n
 }
 
+/// Free-running stress (not a verdict path): hammer a tracker from several threads until a request stays unanswered for
+/// 10 s, then print the tracker's thread states twice, two seconds apart. Used to chase a stall seen once under load.
+fn stress(secs: u64) -> ! {
+    let cfgs = [(2u8, 2u8, 0usize), (3, 3, 100), (2, 3, 100)];
+    let trackers: Vec<Tracker> = cfgs.iter().map(|&(sw, wm, ms)| start_tracker(sw, wm, true, ms)).collect();
+    let t0 = std::time::Instant::now();
+    let stalled = std::sync::atomic::AtomicBool::new(false);
+    let total = AtomicU64::new(0);
+    std::thread::scope(|s| {
+        for (ti, trk) in trackers.iter().enumerate() {
+            for th in 0..6u64 {
+                let (stalled, total) = (&stalled, &total);
+                s.spawn(move || {
+                    let mut k = th * 1_000_000 + ti as u64 * 100_000_000;
+                    let mut keep: Option<HttpConn> = None;
+                    while t0.elapsed().as_secs() < secs && !stalled.load(Ordering::Relaxed) {
+                        k += 1;
+                        let w = (k % trk.socket_workers as u64) as u16;
+                        let addr = SocketAddr::new(IpAddr::V4(Ipv4Addr::LOCALHOST), trk.child.port + w);
+                        let mut h = [0x33u8; 20];
+                        h[0] = (k % 7) as u8;
+                        h[1..9].copy_from_slice(&(k / 50).to_be_bytes());
+                        let req = if k % 3 == 0 {
+                            http_get(&format!("/scrape?info_hash={}&info_hash={}", enc(&h), enc(&[(k % 5) as u8; 20])), "")
+                        } else {
+                            http_get(&http_announce_path(&h, &[b'q'; 20], 2000 + (k % 500) as u16, k % 2, if k % 11 == 0 { "stopped" } else { "started" }, None, 0), "")
+                        };
+                        // alternate between a kept-alive connection, a fresh one, and a fresh one abandoned right after sending
+                        let mode = k % 4;
+                        if mode == 3 {
+                            if let Some(mut c) = HttpConn::connect(addr) {
+                                c.send(&req);
+                            }
+                            continue;
+                        }
+                        let mut c = match (mode, keep.take()) {
+                            (0, Some(c)) => c,
+                            _ => match HttpConn::connect(addr) {
+                                Some(c) => c,
+                                None => continue,
+                            },
+                        };
+                        c.stream.set_read_timeout(Some(Duration::from_secs(10))).ok();
+                        if !c.send(&req) {
+                            continue;
+                        }
+                        match c.read_reply() {
+                            Ok(_) => {
+                                total.fetch_add(1, Ordering::Relaxed);
+                                if mode == 0 {
+                                    keep = Some(c);
+                                }
+                            }
+                            Err(HttpErr::Timeout(_)) => {
+                                if !stalled.swap(true, Ordering::Relaxed) {
+                                    println!("STALL after {:.0} s and {} answered requests: {} did not answer within 10 s: {:?}", t0.elapsed().as_secs_f64(), total.load(Ordering::Relaxed), trk.label, String::from_utf8_lossy(&req[..req.len().min(80)]));
+                                    for round in 0..2 {
+                                        println!("thread states (round {}):", round);
+                                        for l in proc_thread_states(trk.child.child.id()) {
+                                            println!("   {}", l);
+                                        }
+                                        std::thread::sleep(Duration::from_secs(2));
+                                    }
+                                    println!("answers a fresh plain announce now: {}", http_alive(SocketAddr::new(IpAddr::V4(Ipv4Addr::LOCALHOST), trk.child.port), k));
+                                }
+                            }
+                            Err(_) => {}
+                        }
+                    }
+                });
+            }
+        }
+    });
+    println!("stress done: {} answered requests in {:.0} s, stalled: {}", total.load(Ordering::Relaxed), t0.elapsed().as_secs_f64(), stalled.load(Ordering::Relaxed));
+    std::process::exit(0);
+}
+
 pub fn main(args: &Args) -> ! {
+    if let Some(secs) = std::env::var("AQV_C16_STRESS").ok().and_then(|s| s.parse().ok()) {
+        stress(secs);
+    }
+
     let mut run = Run::new(args, "model_checking");
     let th = args.tier.thorough();
     run.set("engine", "netmc: breadth-first search of a reference model (one tracker, three connections, three torrents); every transition of the explored model graph is replayed - BFS-tree path to its source state, then the transition - in a fresh info-hash namespace against aquatic_http::run in child processes, for every worker-count configuration, with connections placed on chosen socket workers (hook H7) and torrents on chosen swarm workers (first hash byte)");
